@@ -23,6 +23,7 @@ type world struct {
 	errs     map[error]string
 	cbs      []*recCB
 	cblog    []interface{}
+	cbraw    []cbEvent
 	handles  []tabular.PropertyOwner // column handles (C12)
 	cellvars []*tabular.Cell         // by-value copies of cells (C12)
 	items    []interface{}           // every item created, for mutate
@@ -163,8 +164,10 @@ func runScenario(out *bufio.Writer, id string, ops []M, facets map[string]bool, 
 			}()
 			w.lastRes = nil
 			w.cblog = nil
+			w.cbraw = nil
 			w.exec(op)
 		}()
+		w.resolveCbLog()
 		if len(w.cbs) > 0 {
 			// the callback events of this call (always logged once a callback exists)
 			if w.lastRes == nil {
